@@ -63,10 +63,23 @@ def rev(b):
     return bytes(b)[::-1]
 
 
+_SK = {}
+
+
 def session_key(ck_block, rc_block):
     """(SK1, SK2) in calculation order from the 16-byte CK and RC blocks in wire order"""
     ck_block, rc_block = bytes(ck_block), bytes(rc_block)
     assert len(ck_block) == 16 and len(rc_block) == 16
+    hit = _SK.get((ck_block, rc_block))
+    if hit is not None:
+        return hit
+    if len(_SK) > 64:
+        _SK.clear()
+    _SK[(ck_block, rc_block)] = hit = _session_key(ck_block, rc_block)
+    return hit
+
+
+def _session_key(ck_block, rc_block):
     ck1, ck2 = rev(ck_block[0:8]), rev(ck_block[8:16])
     rc1, rc2 = rev(rc_block[0:8]), rev(rc_block[8:16])
     sk1 = tdes2(ck1, ck2, rc1)
